@@ -1,9 +1,10 @@
 """C08 - offset temperature scales: point/difference semantics or refusal (oracle: affine arithmetic in kelvin)."""
+import functools
 import itertools
 import numpy as np
 from vf import core
 from vf.ref import defs, names
-from vf.gen import c08_alias, c08_degenerate
+from vf.gen import c08_alias, c08_degenerate, c08_datadep
 from .common import chunks
 
 RULE = ("exhaustive over ordered pairs of temperature units (6 base spellings + delta units + SI-prefixed K/degC/delta_degC: quick m,k; "
@@ -25,6 +26,20 @@ RULE = ("exhaustive over ordered pairs of temperature units (6 base spellings + 
         "tensordot, einsum, ufunc.outer, inv, pinv, matrix_power, var, convolve, det): judged 'must raise' whenever two or more factors take part "
         "or the exponent is not 1, and only if the same call on the same numbers labelled K returns (control); after the refusal the out= / in-place "
         "target must hold its old numbers. "
+        "data-dependent branches: the same ordered pairs x {+,-} x {operator, ufunc, out= fresh labelled buffer, out= bare ndarray, out= left operand, "
+        "out= right operand, in-place operator} x the position of a *special* operand (left, right, both) x its reading class (0.0, -0.0, integer 0, "
+        "float32 0, False, the absolute zero of its scale, NaN, +inf, -inf, the smallest subnormal) x its spelling (unyt_quantity, 0-d array, "
+        "one-element array, 1x1 array, vector, 2-d array, vector mixing special and ordinary readings; bare Python number, NumPy scalar, 0-d ndarray, "
+        "list, ndarray) against an ordinary partner (quantity, vector) - the quick tier leaves the second representatives of a class (-inf, float32 0, False, 1x1, NumPy scalar, list) to the thorough tier, which runs them on the pairs of the quick unit set and the quick cross on every other prefixed unit against degC and delta_degF in both orders: one evaluation per object holding the result, "
+        "judged by the same affine reference (NaN where it gives NaN, the same infinity where it gives one); every special call is preceded by the "
+        "same call with an ordinary non-zero reading of the same dtype in the same spelling (control), and a refusal is accepted as a refusal only; "
+        "conversions of the special readings in 6 spellings by 5 routes for every ordered pair; sums and differences along an axis "
+        "(add/subtract.reduce, sum, nansum, cumsum, accumulate, diff, ediff1d, ptp, a[0]-a[1], builtin sum) over 0-3 readings with special content "
+        "(all zero, zeros first/last/in the middle, absolute zeros, NaN, infinities, subnormals) per unit, judged as differences against NumPy "
+        "on the bare numbers; the same pairs x {+,-} x {operator, ufunc, quantity} with the unit of one operand (left, right), of the converted data or of "
+        "the conversion target obtained through 11 doors (name, Unit(name), Unit(u), Unit(u, registry=own), Unit(u.expr, registry=own), copy(), "
+        "copy(deep=True), deepcopy, pickle, quantity.units, module attribute); in_base / convert_to_base / get_base_equivalent of every unit into unit "
+        "systems whose temperature unit is degC, degF, mdegC, kdegC, delta_degF, mK and into 5 built-in systems, against the exact affine map. "
         "distinct = (operation form, [judged object,] unit1, unit2) tuples; degenerate: (op, axis form, readings class, keepdims, out kind, unit) / (power form, exponent spelling, unit)")
 ASSUMPTIONS = ("vf/ref/defs.py affine parameters (degC: K = v + 273.15; degF: K = 5/9 (v + 459.67); prefixed degC keep the zero point)",
                "point+point, difference-point and comparisons are not in the statement: recorded, not judged",
@@ -49,12 +64,27 @@ ASSUMPTIONS = ("vf/ref/defs.py affine parameters (degC: K = v + 273.15; degF: K 
                "value NumPy starts from anyway (recorded); for np.divide.reduce every start value is a dividend",
                "degenerate shapes: an exponent one unit in the last place away from 1 (in the exponent's own float type; e.g. (0.1+0.2)/0.3) is float "
                "noise of a computed 1: recorded; exponents 1e-12 or further from 1 (1+1e-12, 1+1e-9, 1-1e-7, 1+1e-5) and tiny non-zero exponents are genuine powers: judged",
-               "degenerate shapes: det(0x0), dot/outer/var of empty operands (no reading takes part) are recorded; matrix_power(A, 0) is a power by 0: judged")
+               "degenerate shapes: det(0x0), dot/outer/var of empty operands (no reading takes part) are recorded; matrix_power(A, 0) is a power by 0: judged",
+               "data-dependent branches: a reading of 0 (0.0, -0.0, integer 0, False) on an offset scale is a point like any other reading; the reference makes "
+               "no exception for any value, so the result for a special reading must be the affine result with the same point/difference reading of the label",
+               "data-dependent branches: a refusal is never a violation (the statement says 'or refuses') unless it leaves a written target after a mandated "
+               "refusal; a call that refuses a special reading while the control (ordinary reading, same dtype, same spelling, same form) returns is "
+               "recorded (datadep_refusal_only_for_special_reading), not judged; a call that returns for a special reading while its control refuses is "
+               "judged by the affine reference like every returned value",
+               "data-dependent branches: a bare (unit-less) operand is not a temperature quantity; a bare zero takes the unit of the other operand by the "
+               "library's documented idiom (C01) and is judged as a zero written in that unit (so 0 + x degC is point+point: recorded); every other bare "
+               "operand is recorded only",
+               "data-dependent branches: boolean operands are computed in float16 by the library's width rule (C17): the bound is 16 float16 ulp and cases "
+               "whose factors leave the float16 range are discarded and counted, as for float32",
+               "data-dependent reductions: every judged result is a difference (sums of differences; differences of two readings of one unit, where the "
+               "zero points cancel) and is read through the scale of its label only; sums of points, difference-minus-point chains (subtract.reduce over 3 "
+               "points, subtract.accumulate of points) and results without any element are recorded, not judged")
 MIN_EVALS = 4000
 TIMEOUT = 900
 READINGS = [0.0, 10.0, -40.0, 36.6, 451.0, -273.15, 0.5]
 
 
+@functools.lru_cache(maxsize=None)
 def aff(name):
     f, s, _ = names.resolve(name)
     de = defs.T[s]
@@ -62,11 +92,13 @@ def aff(name):
     return (a, -de.value * de.offset) if de.offset else (a, 0.0)
 
 
+@functools.lru_cache(maxsize=None)
 def fam(name):
     f, s, _ = names.resolve(name)
     return s if f == 1.0 else "p-" + s
 
 
+@functools.lru_cache(maxsize=None)
 def kind(name):
     return "point" if aff(name)[1] != 0.0 else "diff"
 
@@ -95,6 +127,22 @@ def batches(tier, seed):
         b += [("degenerate/%s/%s" % (part, u), ("degenerate", (part, [u], tier))) for part in ("reduce", "cumulative")]
     b += [("degenerate/power/%d" % i, ("degenerate", ("power", c, tier))) for i, c in enumerate(chunks(points, 4))]
     b.append(("degenerate/products", ("degenerate", ("products", points, tier))))
+    # data-dependent branches: special readings x spellings x positions x forms for every ordered pair; conversions; sums/differences along an axis
+    # thorough: the pairs of the quick unit set (with the full cross) plus every other prefixed unit against one offset and one difference
+    # scale in both orders (with the quick cross) - about three times the quick size
+    ddpairs = pairs
+    if tier != "quick":
+        core = units("quick")
+        ddpairs = list(itertools.product(core, core))
+        for u in us:
+            if u not in core:
+                for p_ in ("degC", "delta_degF"):
+                    ddpairs += [(u, p_), (p_, u)]
+    b += [("datadep/%d" % i, ("datadep", (c, tier))) for i, c in enumerate(chunks(ddpairs, 24 if tier == "quick" else 48))]
+    b += [("datadep-convert/%d" % i, ("datadep-convert", c)) for i, c in enumerate(chunks(ddpairs, 6 if tier == "quick" else 12))]
+    b += [("datadep-reduce/%d" % i, ("datadep-reduce", (c, tier))) for i, c in enumerate(chunks(us, 4 if tier == "quick" else 12))]
+    b += [("datadep-routes/%d" % i, ("datadep-routes", c)) for i, c in enumerate(chunks(ddpairs, 6 if tier == "quick" else 12))]
+    b.append(("datadep-systems", ("datadep-systems", us)))
     return b
 
 
@@ -468,6 +516,20 @@ def worker(batch, rec):
                 _deg_powers(rec, unyt, us, tier)
             else:
                 _deg_products(rec, unyt, us, tier)
+    elif kind_ in ("datadep", "datadep-convert", "datadep-reduce", "datadep-routes", "datadep-systems"):
+        import warnings
+        with warnings.catch_warnings(), np.errstate(all="ignore"):
+            warnings.simplefilter("ignore")
+            if kind_ == "datadep":
+                _dd_pairs(rec, unyt, payload[0], payload[1])
+            elif kind_ == "datadep-convert":
+                _dd_convert(rec, unyt, payload)
+            elif kind_ == "datadep-routes":
+                _dd_routes(rec, unyt, payload)
+            elif kind_ == "datadep-systems":
+                _dd_systems(rec, unyt, payload)
+            else:
+                _dd_reduce(rec, unyt, payload[0], payload[1])
 
 
 CONTROL = "K"     # a scale without zero point: the same call on the same numbers must return, otherwise the refusal says nothing
@@ -613,6 +675,347 @@ def _deg_products(rec, unyt, us, tier):
     rec.sample({"degenerate": "products", "units": us, "ops": [o[0] for o in g.product_ops(unyt, CONTROL, "f8")]})
 
 
+# ------------------------------------------------------------------------------------------------ data-dependent branches
+def _close(got, val, bound):
+    """elementwise: within the bound where the reference is finite, the same infinity / NaN where it is not"""
+    with np.errstate(all="ignore"):
+        fin = np.isfinite(val)
+        return np.where(fin, np.abs(got - val) <= bound, (got == val) | (np.isnan(got) & np.isnan(val)))
+
+
+def _dd_judge(rec, form, op, u1, u2, e1, e2, plan, tag, pos, info, control):
+    """run one plan of the data-dependent family. e1, e2: the units the operands are read in (a bare zero: the partner's unit; None: a bare
+    operand that is not judged). control: outcome of the same call with ordinary readings ('returned' / 'refused'), None for the control
+    itself. Returns 'returned' or 'refused'."""
+    a, b, out, call, xe, ye = plan
+    dd = c08_datadep
+    key_f = f"{fam(u1)}{op}{fam(u2)}"
+    case = dict(info, u1=u1, u2=u2, x=np.asarray(xe).tolist(), y=np.asarray(ye).tolist(), op=op, form=form)
+    out_before = None if out is None else _vals(out)
+    try:
+        r = call(); raised = None
+    except Exception as e:
+        r = None; raised = type(e).__name__
+    outcome = "refused" if raised else "returned"
+    if e1 is None or e2 is None:
+        rec.note(f"datadep-bare-nonzero-operand:{outcome}"); rec.count("datadep:bare-nonzero-recorded")
+        return outcome
+    k1, k2 = kind(e1), kind(e2)
+    two_offset_scales = k1 == "point" and k2 == "point" and aff(e1) != aff(e2)
+    if raised is not None:
+        intact = out is None or _same(out_before, _vals(out))
+        if two_offset_scales:
+            if not intact:
+                rec.violation(f"C08:datadep:written-before-refusal:{form}:{tag}:{key_f}", f"{case['x']} {u1} {op} {case['y']} {u2} ({form}) raised {raised} but the target holds {_vals(out).tolist()} instead of {out_before.tolist()}", case)
+            else:
+                rec.ok(("datadep-refused-2offset", form, pos, info["sclass"], info["rgroup"], fam(u1), op, fam(u2)))
+                rec.count("datadep:refused-2offset")
+        elif control is None or control == "refused":
+            rec.ok(("datadep-refusal", form, pos, info["sclass"], info["rgroup"], fam(u1), op, fam(u2)))
+            if control is not None:
+                rec.count("datadep:refusal-as-control")
+        else:
+            # refuses the special reading, returns for the ordinary one: allowed by the statement, recorded
+            rec.note(f"datadep-refusal-only-for-special-reading:{form}:{tag}:{k1}{op}{k2}"); rec.count("datadep:refusal-only-for-special-reading")
+        return outcome
+    if two_offset_scales:
+        rec.violation(f"C08:datadep:two-offset-scales-combined:{form}:{tag}:{key_f}", f"{case['x']} {u1} {op} {case['y']} {u2} ({form}) returned {r!r}; two different offset scales must be refused", case)
+        return outcome
+    if not hasattr(r, "units"):
+        rec.violation(f"C08:datadep:result-without-unit:{form}:{tag}:{key_f}", f"{case['x']} {u1} {op} {case['y']} {u2} ({form}) returned bare {r!r}", case)
+        return outcome
+    floats = [dd.fl(np.asarray(a).dtype), dd.fl(np.asarray(b).dtype)] + ([dd.fl(out.dtype)] if out is not None else [])
+    eps = max(EPS[f] for f in floats)
+    subjects = [("returned", r, r.units)]
+    if out is not None and out is not r:
+        subjects.append(("out-buffer", out, out.units if hasattr(out, "units") else r.units))
+    for role, obj, U in subjects:
+        Uname = str(U.expr)
+        rr = names.resolve(Uname)
+        if rr is None or defs.T[rr[1]].dim != defs.T["K"].dim:
+            rec.violation(f"C08:datadep:result-unit-not-temperature:{form}:{role}:{tag}:{key_f}", f"{case['x']} {u1} {op} {case['y']} {u2} ({form}) -> {role} unit {U}", case)
+            continue
+        ex = expected_alias(e1, e2, xe, ye, op, Uname, eps)
+        if ex is None:
+            rec.note(f"datadep-not-judged:{k1}{op}{k2}"); rec.count("datadep:not-in-statement-recorded")
+            continue
+        val, sem, bound, mags = ex
+        if eps > EPS["f8"]:
+            lo, hi = (1e-30, 1e30) if eps == EPS["f4"] else (6.2e-5, 6e4)
+            finite_mags = [np.asarray(m, dtype="f8")[np.isfinite(np.asarray(m, dtype="f8"))] for m in mags]
+            if not _fits(finite_mags, lo, hi):
+                rec.count("datadep-discarded-narrow-float-range"); continue
+        got = _vals(obj)
+        try:
+            val_b = np.broadcast_to(val, got.shape); bound_b = np.broadcast_to(bound, got.shape)
+        except ValueError:
+            rec.violation(f"C08:datadep:result-shape:{form}:{role}:{tag}:{key_f}", f"{case['x']} {u1} {op} {case['y']} {u2} ({form}) -> {role} shape {got.shape}, operands broadcast to {np.shape(val)}", case)
+            continue
+        if not np.all(_close(got, val_b, bound_b)):
+            rec.violation(f"C08:datadep:affine-value:{form}:{role}:{tag}:{key_f}",
+                          f"{case['x']} {u1} {op} {case['y']} {u2} ({form}; special operand {pos}: {info['reading']} spelled {info['spelling']}): {role} holds {got.tolist()} {Uname}; "
+                          f"affine arithmetic gives {val_b.tolist()} {Uname} ({sem})" + ("" if control != "refused" else "; the same call with an ordinary reading refuses"), case)
+        else:
+            rec.ok(("datadep", form, role, pos, info["sclass"], info["rgroup"], fam(u1), op, fam(u2)))
+            rec.count(f"datadep:{role}-judged"); rec.count(f"datadep-form:{form}"); rec.count(f"datadep-pos:{pos}")
+            rec.count(f"datadep-reading:{info['reading']}"); rec.count(f"datadep-spelling:{info['spelling']}")
+            if control == "refused":
+                rec.count("datadep:returned-where-control-refuses")
+    return outcome
+
+
+def _dd_pairs(rec, unyt, pairs, tier):
+    dd = c08_datadep
+    core_units = set(units("quick"))
+    run_tier = tier
+    for (u1, u2) in pairs:
+        # the full cross (second representatives of each reading / spelling class, 2-d partner) runs on the pairs of the quick unit set;
+        # the other prefixes (a scale factor) get the quick cross, which holds every class of the dimension
+        tier = run_tier if (run_tier == "quick" or (u1 in core_units and u2 in core_units)) else "quick"
+        R = dd.readings(tier); CT = dd.controls(tier)
+        # one Unit object per operand position (built once: parsing the name for each of ~4000 operands would be most of the cost)
+        U = {"left": unyt.Unit(u1), "right": unyt.Unit(u2)}
+        for op in "+-":
+            for pos in ("left", "right"):
+                us, up = (u1, u2) if pos == "left" else (u2, u1)
+                Us, Up = (U["left"], U["right"]) if pos == "left" else (U["right"], U["left"])
+                a_s, b_s = aff(us)
+                pv = dd.value("control2", 1.0, 0.0)
+                for partner in dd.PARTNERS[tier]:
+                    for spelling in dd.spellings(tier):
+                        bare = spelling in dd.BSPELL
+                        for grp, ctl in CT.items():
+                            classes = [c for c in R if dd.READINGS[c][0] == grp and (not bare or c in dd.ZERO_LIKE)]
+                            if not classes:
+                                continue
+                            c = dd.value(ctl, a_s, b_s)
+                            ctl_outcome = {}
+                            for cls in [ctl] + classes:
+                                v = dd.value(cls, a_s, b_s)
+                                mk_s = (lambda v=v: dd.operand(unyt, spelling, v, Us, c))
+                                mk_p = (lambda: dd.operand(unyt, partner, pv, Up, pv))
+                                mk_a, mk_b = (mk_s, mk_p) if pos == "left" else (mk_p, mk_s)
+                                if bare:
+                                    # a bare zero is read in the partner's unit; any other bare operand is recorded only
+                                    es = up if cls in dd.ZERO_LIKE else None
+                                else:
+                                    es = us
+                                e1, e2 = (es, up) if pos == "left" else (up, es)
+                                rgroup = "control" if cls == ctl else dd.READINGS[cls][1]
+                                tag = f"{pos}={rgroup}/{dd.SPELL_CLASS[spelling]}"
+                                info = {"special": pos, "reading": cls, "spelling": spelling, "partner": partner, "rgroup": rgroup, "sclass": dd.SPELL_CLASS[spelling]}
+                                for form, build in dd.plans(unyt, op, mk_a, mk_b, U["right"] if (bare and pos == "left") else U["left"]):
+                                    plan = build()
+                                    if plan is None:
+                                        continue
+                                    o = _dd_judge(rec, form, op, u1, u2, e1, e2, plan, tag, pos, info, None if cls == ctl else ctl_outcome.get(form))
+                                    if cls == ctl:
+                                        ctl_outcome[form] = o
+            # both operands special
+            a1, b1 = aff(u1); a2, b2 = aff(u2)
+            ctl_cache = {}
+            for (sl, sr) in dd.both_spellings(tier):
+                for (cl, cr) in dd.both_readings(tier):
+                    gl, gr = dd.READINGS[cl][0], dd.READINGS[cr][0]
+                    for is_ctl in (True, False):
+                        if is_ctl and (sl, sr, gl, gr) in ctl_cache:
+                            continue
+                        rl, rr_ = (dd.CONTROLS[gl], "control2" if gr == "f8" else dd.CONTROLS[gr]) if is_ctl else (cl, cr)
+                        vl = dd.value(rl, a1, b1); vr = dd.value(rr_, a2, b2)
+                        cvl = dd.value(dd.CONTROLS[gl], a1, b1); cvr = dd.value(dd.CONTROLS[gr], a2, b2)
+                        mk_a = (lambda: dd.operand(unyt, sl, vl, U["left"], cvl)); mk_b = (lambda: dd.operand(unyt, sr, vr, U["right"], cvr))
+                        rg = "control" if is_ctl else f"{dd.READINGS[cl][1]},{dd.READINGS[cr][1]}"
+                        sc = f"{dd.SPELL_CLASS[sl]},{dd.SPELL_CLASS[sr]}"
+                        info = {"special": "both", "reading": f"{rl},{rr_}", "spelling": f"{sl},{sr}", "partner": None, "rgroup": rg, "sclass": sc}
+                        tag = f"both={rg}/{sc}"
+                        outs = ctl_cache.setdefault((sl, sr, gl, gr), {}) if is_ctl else None
+                        for form, build in dd.plans(unyt, op, mk_a, mk_b, U["left"]):
+                            plan = build()
+                            if plan is None:
+                                continue
+                            o = _dd_judge(rec, form, op, u1, u2, u1, u2, plan, tag, "both", info, None if is_ctl else ctl_cache[(sl, sr, gl, gr)].get(form))
+                            if is_ctl:
+                                outs[form] = o
+    rec.sample({"datadep_pair": list(pairs[0]), "forms": list(dd.FORMS), "readings": list(dd.readings(run_tier)), "spellings": list(dd.spellings(run_tier)), "partners": list(dd.PARTNERS[run_tier]),
+                "full_cross_units": sorted(core_units)})
+
+
+def _dd_convert(rec, unyt, pairs):
+    dd = c08_datadep
+    for (u1, u2) in pairs:
+        a1, b1 = aff(u1); a2, b2 = aff(u2)
+        ratio = abs(a1 / a2)
+        for cls in dd.CONVERT_READINGS:
+            v = dd.value(cls, a1, b1)
+            dt = np.asarray(v).dtype.str[1:]
+            eps = EPS[dd.fl(dt)]
+            if dt == "f4" and (ratio > 1e30 or ratio < 1e-30 or abs((b1 - b2) / a2) > 1e30 or 0 < abs((b1 - b2) / a2) < 1e-30):
+                rec.count("datadep-convert-discarded-float32-range"); continue
+            c = dd.value("icontrol" if dt == "i8" else "f4control" if dt == "f4" else "control", a1, b1)
+            rgroup = "control" if cls == "control" else dd.READINGS[cls][1]
+            for spelling in dd.CONVERT_SPELLINGS:
+                for route in dd.CONVERT_ROUTES:
+                    x, reads = dd.operand(unyt, spelling, v, u1, c)
+                    tagk = f"{route}:{rgroup}/{dd.SPELL_CLASS[spelling]}:{fam(u1)}->{fam(u2)}"
+                    case = {"u1": u1, "u2": u2, "route": route, "reading": cls, "spelling": spelling, "x": reads.tolist()}
+                    try:
+                        got, U = dd.convert_run(route, x, u2)
+                    except Exception as e:
+                        if dt[0] == "i" and isinstance(e, ValueError):
+                            rec.note(f"datadep-convert-refused:{route}:{dt}"); continue
+                        rec.violation(f"C08:datadep:convert-raises:{tagk}", f"{reads.tolist()} {u1} ({spelling}, {dt}) -> {u2} via {route} raised {type(e).__name__}: {e}", case); continue
+                    got = np.array(got, dtype="f8")
+                    if U is not None and str(U.expr) != str(unyt.Unit(u2).expr):
+                        rec.violation(f"C08:datadep:convert-unit:{tagk}", f"{reads.tolist()} {u1} -> {u2} ({route}) labelled {U}", case); continue
+                    exp = (a1 * reads + (b1 - b2)) / a2
+                    bound = 4 * eps * (np.abs(a1 * reads / a2) + abs(b1 / a2) + abs(b2 / a2)) + 1e-300
+                    if got.shape != exp.shape or not np.all(_close(got, exp, bound)):
+                        rec.violation(f"C08:datadep:convert-value:{tagk}", f"{reads.tolist()} {u1} ({spelling}, {dt}) -> {got.tolist()} {u2} via {route}; exact affine map gives {exp.tolist()}", case)
+                    else:
+                        rec.ok(("datadep-convert", route, spelling, cls, fam(u1), fam(u2)))
+                        rec.count("datadep-convert:judged"); rec.count(f"datadep-convert-route:{route}"); rec.count(f"datadep-convert-reading:{cls}")
+    rec.sample({"datadep_convert": list(pairs[0]), "routes": list(dd.CONVERT_ROUTES), "spellings": list(dd.CONVERT_SPELLINGS), "readings": list(dd.CONVERT_READINGS)})
+
+
+def _dd_routes(rec, unyt, pairs):
+    """the unit of one operand (or the conversion target) is obtained through every door of the Unit constructor / copy protocol"""
+    dd = c08_datadep
+    X = np.array([0.0, dd.CONTROL_VALUE, -40.0]); Y = np.array([-7.25, 0.0, 36.6])
+    for (u1, u2) in pairs:
+        a1, b1 = aff(u1); a2, b2 = aff(u2)
+        for route in dd.UNIT_ROUTES:
+            for pos in ("left", "right"):
+                r_unit = dd.unit_by_route(unyt, route, u1 if pos == "left" else u2)
+                if r_unit is None:
+                    rec.count("datadep-route-absent"); continue
+                for op in "+-":
+                    for form in ("operator", "ufunc", "quantity"):
+                        ul, ur = (r_unit, u2) if pos == "left" else (u1, r_unit)
+                        if form == "quantity":
+                            a = unyt.unyt_quantity(X[1], ul); b = unyt.unyt_quantity(Y[0], ur); xe, ye = X[1], Y[0]
+                        else:
+                            a = unyt.unyt_array(X.copy(), ul); b = unyt.unyt_array(Y.copy(), ur); xe, ye = X, Y
+                        uf = np.add if op == "+" else np.subtract
+                        call = (lambda: uf(a, b)) if form == "ufunc" else (lambda: (a + b) if op == "+" else (a - b))
+                        info = {"special": pos, "reading": "ordinary+zero", "spelling": form, "partner": None, "rgroup": "route", "sclass": route}
+                        o = _dd_judge(rec, "route:" + form, op, u1, u2, u1, u2, (a, b, None, call, xe, ye), f"{route}:{pos}", pos, info, None)
+                        rec.count(f"datadep-route:{route}:{o}")
+            # the route-built unit as the label of the data / as the conversion target
+            for side in ("source", "target"):
+                U = dd.unit_by_route(unyt, route, u1 if side == "source" else u2)
+                if U is None:
+                    continue
+                for cr in ("to", "in_units", "convert_to_units"):
+                    x = unyt.unyt_array(X.copy(), U if side == "source" else u1)
+                    tagk = f"{route}:{side}:{cr}:{fam(u1)}->{fam(u2)}"
+                    case = {"u1": u1, "u2": u2, "route": route, "side": side, "entry": cr, "x": X.tolist()}
+                    try:
+                        got, Ur = dd.convert_run(cr, x, U if side == "target" else u2)
+                    except Exception as e:
+                        rec.violation(f"C08:route:convert-raises:{tagk}", f"{X.tolist()} {u1} -> {u2} ({cr}; {side} unit obtained as {route}) raised {type(e).__name__}: {e}", case); continue
+                    exp = (a1 * X + (b1 - b2)) / a2
+                    bound = 4 * 2.3e-16 * (np.abs(a1 * X / a2) + abs(b1 / a2) + abs(b2 / a2)) + 1e-300
+                    got = np.array(got, dtype="f8")
+                    if str(Ur.expr) != str(unyt.Unit(u2).expr):
+                        rec.violation(f"C08:route:convert-unit:{tagk}", f"{u1} -> {u2} ({cr}; {side} unit obtained as {route}) labelled {Ur}", case)
+                    elif got.shape != exp.shape or not np.all(_close(got, exp, bound)):
+                        rec.violation(f"C08:route:convert-value:{tagk}", f"{X.tolist()} {u1} -> {got.tolist()} {u2} ({cr}; {side} unit obtained as {route}); exact affine map gives {exp.tolist()}", case)
+                    else:
+                        rec.ok(("datadep-route-convert", route, side, cr, fam(u1), fam(u2))); rec.count("datadep-route:convert-judged"); rec.count(f"datadep-route-convert:{route}")
+    rec.sample({"datadep_routes_pair": list(pairs[0]), "routes": list(dd.UNIT_ROUTES)})
+
+
+def _dd_systems(rec, unyt, us):
+    """base-unit conversion into unit systems whose temperature unit is an offset / prefixed / difference scale, and into the built-in ones"""
+    dd = c08_datadep
+    X = np.array([0.0, dd.CONTROL_VALUE, -40.0, 300.0])
+    systems = [("custom:" + t, t) for t in dd.SYSTEM_TEMPERATURE_UNITS] + [("builtin:" + n, None) for n in dd.BUILTIN_SYSTEMS]
+    for sname, t in systems:
+        try:
+            system = dd.system_for(unyt, t) if t else sname.split(":")[1]
+        except Exception as e:
+            rec.note(f"datadep-system-not-constructible:{sname}:{type(e).__name__}"); continue
+        for u in us:
+            a1, b1 = aff(u)
+            for entry in dd.SYSTEM_ENTRIES:
+                for spelling in ("vec", "quantity"):
+                    x = unyt.unyt_array(X.copy(), u) if spelling == "vec" else unyt.unyt_quantity(X[1], u)
+                    reads = X if spelling == "vec" else X[1]
+                    case = {"unit": u, "system": sname, "entry": entry, "spelling": spelling, "x": np.asarray(reads).tolist()}
+                    try:
+                        got, Ur = dd.system_run(unyt, entry, x, system)
+                    except Exception as e:
+                        rec.note(f"datadep-system-refused:{sname}:{entry}:{type(e).__name__}"); rec.count("datadep-system:refused"); continue
+                    Un = str(Ur.expr); rr = names.resolve(Un)
+                    if rr is None or defs.T[rr[1]].dim != defs.T["K"].dim:
+                        rec.violation(f"C08:system:result-unit-not-temperature:{sname}:{entry}:{fam(u)}", f"{u} data, {entry}({sname}) -> unit {Ur}", case); continue
+                    if t is not None and aff(Un) != aff(t):
+                        rec.note(f"datadep-system-other-temperature-unit:{sname}:{entry}")
+                    aU, bU = aff(Un)
+                    exp = (a1 * reads + (b1 - bU)) / aU
+                    bound = 4 * 2.3e-16 * (np.abs(a1 * reads / aU) + abs(b1 / aU) + abs(bU / aU)) + 1e-300
+                    got = np.array(got, dtype="f8")
+                    if got.shape != np.shape(exp) or not np.all(_close(got, exp, bound)):
+                        rec.violation(f"C08:system:convert-value:{sname}:{entry}:{fam(u)}", f"{np.asarray(reads).tolist()} {u} -> {got.tolist()} {Un} via {entry}({sname}); exact affine map gives {np.asarray(exp).tolist()}", case)
+                    else:
+                        rec.ok(("datadep-system", sname, entry, spelling, u)); rec.count("datadep-system:judged"); rec.count(f"datadep-system:{sname}"); rec.count(f"datadep-system-entry:{entry}")
+    rec.sample({"datadep_systems": [s_[0] for s_ in systems], "entries": list(dd.SYSTEM_ENTRIES), "units": list(us)[:6]})
+
+
+_DD_SUMS = ("np.add.reduce", "np.sum", "method.sum", "np.nansum", "np.cumsum", "np.add.accumulate", "np.add.reduce(initial=0.0)", "builtin-sum")
+_DD_DIFFS = ("np.diff", "np.ediff1d", "np.ptp", "a[0]-a[1]")
+
+
+def _dd_reduce_judged(op, k, n):
+    """is the result of op over n readings of kind k one of the combinations the statement speaks about (all of them differences)?"""
+    if op in _DD_SUMS:
+        return k == "diff" and not (op == "builtin-sum" and n == 0)
+    if op == "np.subtract.reduce":
+        return n >= 1 if k == "diff" else n == 2
+    if op == "np.subtract.accumulate":
+        return k == "diff"
+    return True
+
+
+def _dd_reduce(rec, unyt, us, tier):
+    dd = c08_datadep
+    for u in us:
+        a, b = aff(u); k = kind(u)
+        for plan in dd.reduce_plans(tier):
+            op, n = plan["op"], plan["n"]
+            X, kw = dd.reduce_raw(plan["content"], plan["layout"], n, a, b)
+            ref, err = _attempt(lambda: np.asarray(dd.reduce_run(op, X.astype("f8"), kw), dtype="f8"))
+            if err is not None:
+                rec.count("datadep-reduce-skipped:numpy-itself-refuses"); continue
+            x = unyt.unyt_array(X.copy(), u)
+            r, raised = _attempt(lambda: dd.reduce_run(op, x, kw))
+            case = {"unit": u, "op": op, "content": plan["content"], "layout": plan["layout"], "n": n, "x": X.tolist()}
+            if not _dd_reduce_judged(op, k, n):
+                rec.note(f"datadep-reduce-not-in-statement:{op}:{k}:{'refused' if raised else 'returned'}"); rec.count("datadep-reduce:not-in-statement-recorded"); continue
+            if raised:
+                rec.note(f"datadep-reduce-refused:{op}:{k}"); rec.ok(("datadep-reduce-refusal", op, plan["layout"], u)); rec.count("datadep-reduce:refused"); continue
+            if ref.size == 0:
+                rec.note(f"datadep-reduce-empty-result:{op}"); rec.count("datadep-reduce:empty-result-recorded"); continue
+            key = f"{op}:{plan['content']}:{fam(u)}"
+            if not hasattr(r, "units"):
+                rec.violation(f"C08:datadep:reduction:no-units:{key}", f"{op} of {X.tolist()} {u} returned bare {r!r}", case); continue
+            Un = str(r.units.expr)
+            rr = names.resolve(Un)
+            if rr is None or defs.T[rr[1]].dim != defs.T["K"].dim:
+                rec.violation(f"C08:datadep:reduction:unit:{key}", f"{op} of {X.tolist()} {u} -> unit {r.units}", case); continue
+            aU, bU = aff(Un)
+            exp = a * ref / aU                      # a difference: scale only
+            fin = X.astype("f8"); fin = np.abs(fin[np.isfinite(fin)])
+            bound = 16 * 2.3e-16 * (np.abs(np.where(np.isfinite(exp), exp, 0.0)) + abs(a / aU) * (fin.sum() if fin.size else 0.0)) + 1e-300
+            got = _vals(r)
+            if got.shape != exp.shape or not np.all(_close(got, exp, bound)):
+                rec.violation(f"C08:datadep:reduction:value:{key}", f"{op} of {X.tolist()} {u} ({plan['layout']}) = {got.tolist()} {Un}; as differences NumPy gives {exp.tolist()} {Un}", case)
+            else:
+                rec.ok(("datadep-reduce", op, plan["content"], plan["layout"], n, u))
+                rec.count("datadep-reduce:judged"); rec.count(f"datadep-reduce-op:{op}"); rec.count(f"datadep-reduce-content:{plan['content']}"); rec.count(f"datadep-reduce-n:{n}")
+    rec.sample({"datadep_reduce_units": list(us), "ops": list(dd.REDUCE_OPS), "contents": list(dd.CONTENTS), "layouts": [list(l) for l in dd.REDUCE_LAYOUTS]})
+
+
 def _ip(a, which):
     if which == "mul":
         a *= 2
@@ -637,11 +1040,28 @@ def extra(tier, seed, results):
         + [f"degenerate-power:{c}" for c in ("zero", "near-zero", "near-one", "mixed")] + [f"degenerate-power-form:{f}" for f in c08_degenerate.POWER_FORMS if "float_power" not in f] \
         + ["degenerate:power-target-intact", "degenerate:power-one-recorded", "degenerate-products:product", "degenerate-products:power0"]
     deciding += degen
+    dd = c08_datadep
+    datadep = ["datadep:returned-judged", "datadep:out-buffer-judged", "datadep:refused-2offset", "datadep:refusal-as-control", "datadep:returned-where-control-refuses",
+               "datadep:not-in-statement-recorded", "datadep:bare-nonzero-recorded", "datadep-convert:judged", "datadep-reduce:judged", "datadep-reduce:not-in-statement-recorded"] \
+        + [f"datadep-form:{f}" for f in dd.FORMS] + [f"datadep-pos:{p}" for p in ("left", "right", "both")] + [f"datadep-reading:{r}" for r in dd.readings(tier)] \
+        + [f"datadep-reading:{r}" for r in dd.controls(tier).values()] + [f"datadep-spelling:{s_}" for s_ in dd.spellings(tier)] \
+        + [f"datadep-convert-route:{r}" for r in dd.CONVERT_ROUTES] + [f"datadep-convert-reading:{r}" for r in dd.CONVERT_READINGS] \
+        + [f"datadep-reduce-op:{o}" for o in dd.REDUCE_OPS] + [f"datadep-reduce-content:{c}" for c in dd.CONTENTS] + [f"datadep-reduce-n:{n}" for n in (0, 1, 2, 3)]
+    datadep += ["datadep-route:convert-judged", "datadep-system:judged"] + [f"datadep-route:{r}:returned" for r in dd.UNIT_ROUTES] + [f"datadep-route-convert:{r}" for r in dd.UNIT_ROUTES] \
+        + [f"datadep-system:custom:{t}" for t in dd.SYSTEM_TEMPERATURE_UNITS] + [f"datadep-system:builtin:{n}" for n in dd.BUILTIN_SYSTEMS] + [f"datadep-system-entry:{e}" for e in dd.SYSTEM_ENTRIES]
+    deciding += datadep
     zero = [k for k in deciding if not counters.get(k)]
     broken = [bid for bid, rr in results if not rr or rr.get("status") != "ok"]
     if zero and not broken:
         raise core.Inconclusive("sub-monitors-evaluated-0-times:" + ",".join(zero))
-    return {"alias_monitor_evaluations": {k: counters.get(k, 0) for k in deciding if k not in degen},
+    notes = {}
+    for bid, rr in results:
+        for k, v in (rr or {}).get("notes", {}).items():
+            if k.startswith("datadep-refusal-only-for-special-reading"):
+                notes[k] = notes.get(k, 0) + v
+    return {"datadep_monitor_evaluations": {k: v for k, v in sorted(counters.items()) if k.startswith("datadep")},
+            "datadep_refusal_only_for_special_reading": notes,
+            "alias_monitor_evaluations": {k: counters.get(k, 0) for k in deciding if k not in degen and k not in datadep},
             "degenerate_monitor_evaluations": {k: v for k, v in sorted(counters.items()) if k.startswith("degenerate")},
             "alias_discarded_float32_range": counters.get("alias-discarded-float32-range", 0),
             "convert_discarded_underflow": counters.get("convert-discarded-underflow", 0)}
